@@ -18,6 +18,10 @@ CHECKS = {
          "Every (seed, duration) pair of the complete boundary product is executed on NaiveDateTime, DateTime<FixedOffset> (several offsets) and NaiveDate, and from the instants reached again (depth 2); after each step b+(a-b)=a, the exact distance and the order are checked; all 191,491,529 dates are stepped by fixed day counts; day/week iterators are checked item by item with their size_hint until they end at the range limits.",
          "Trusted: i128 instant arithmetic on RefCal day numbers. Durations between alphabet members rely on uniformity between bracketed carries.",
          "DESIGN.md §4 C03"),
+ 'C04': ("complete product of boundary UTC date-times x offsets (every whole-minute offset on boundary dates and every second of (-24h,24h) at both range ends in the thorough tier), each state followed by one step of every replacement / stepping operation, judged against a wall-clock reference (utc + offset on RefCal)",
+         "For every explored (instant, offset) state both constructions and readings, conversions, ==/cmp/Hash against the same instant in other zones, all accessors and a formatted wall clock (including the one-day headroom) are compared with the reference; then one step of each with_*, with_time, +-Days, +-Months is taken and the result must be exactly the instant the wall-clock rule gives, None when the tuple does not exist or the instant leaves the range, and never a value outside the range.",
+         "Trusted: RefCal and the wall = utc + offset rule. A non-zero step whose target wall-clock date lies in the one-day headroom may answer either way (value still checked).",
+         "DESIGN.md §4 C04"),
  'C06': ("complete product of duration boundary lattices under every constructor/operation, then closure to depth 2 over the operations, every value compared with an exact i128 nanosecond model",
          "All pairs of a ~270-value lattice x {checked_add, checked_sub, +, -, cmp, Sum} and x every i32-lattice multiplier/divisor; every returned value is observed through all accessors, neg, abs, to_std and Display (parsed back by an independent reader); the values reached are used again as operands (depth 2), so non-lattice values are explored too. The range invariant is asserted on every value ever returned.",
          "Trusted: i128 arithmetic. Float accessors are not judged.",
